@@ -310,11 +310,12 @@ def compare_runs(chain, bare, expl, full):
     """-> (number of executions, None | (rcs, flags, trace_bare, trace_explicit) of the first differing run, first trace)"""
     n = 0
     first = None
+    threaded = any(c[0] in "tp" for c in gen.chain_commands(chain))
     for rcs, fl in run_settings(chain, full):
         # threaded pipelines of the implementation are not perfectly repeatable (a closed-handle race in
         # ProcProxyThread.wait shows up about once in 100 runs; another property's business): a difference counts
-        # only if it shows in three consecutive attempts
-        for attempt in range(3):
+        # only if it shows in three consecutive attempts (chains without threaded commands are run once)
+        for attempt in range(3 if threaded else 1):
             tb_ = execute(bare, rcs, fl)
             te_ = execute(expl, rcs, fl)
             n += 2
@@ -608,7 +609,6 @@ def _do_chain(item):
 FULL = ["a", "-", "=", "(", ")", "[", "]", "{", "}", "!", "$", "@", "&", "|", ";", ":", "'", '"', "\\", "#", ",", ">", " ", "\n"]
 A16 = ["a", "-", "=", "(", ")", "[", "]", "!", "$", "@", "&", "|", ";", "\\", " ", "\n"]
 A10 = ["a", "-", "(", ")", "[", "]", "!", "$", "&", " "]
-A10B = ["a", "=", ")", "]", "!", "@", "|", ";", "\\", "\n"]  # the other recovery-loop triggers, thorough only
 _ORDER = {c: i for i, c in enumerate(FULL)}
 
 
@@ -616,7 +616,7 @@ def b_families(thorough):
     """(name, alphabet, lengths).  Strings already covered by an earlier family are skipped by construction."""
     if not thorough:
         return [("full<=3", FULL, (0, 1, 2, 3)), ("A16=4", A16, (4,)), ("A10=5", A10, (5,))]
-    return [("full<=4", FULL, (0, 1, 2, 3, 4)), ("A16=5", A16, (5,)), ("A10=6", A10, (6,)), ("A10B=5,6", A10B, (5, 6))]
+    return [("full<=4", FULL, (0, 1, 2, 3, 4)), ("A16=5", A16, (5,)), ("A10=6", A10, (6,))]
 
 
 def _covered_earlier(s, fams, fi):
@@ -639,6 +639,17 @@ def b_items(fams):
     return items
 
 
+_BOUT = {}
+
+
+def b_outcome_memo(s):
+    if s not in _BOUT:
+        if len(_BOUT) > 200000:
+            _BOUT.clear()
+        _BOUT[s] = b_outcome(s)[:2]
+    return _BOUT[s]
+
+
 def b_outcome(s):
     r, n, dt = guarded_parse(s, None)
     if r[0] in ("tree", "none", "syntax"):
@@ -656,7 +667,7 @@ def b_minimise(s, kind, sig):
         changed = False
         for i in range(len(cur)):
             c = cur[:i] + cur[i + 1 :]
-            o = b_outcome(c)
+            o = b_outcome_memo(c)
             if (o[0], o[1]) == (kind, sig):
                 cur, changed = c, True
                 break
@@ -666,7 +677,7 @@ def b_minimise(s, kind, sig):
         for ln in (2, 3, 4):
             for i in range(len(cur) - ln + 1):
                 c = cur[:i] + "a" + cur[i + ln :]
-                o = b_outcome(c)
+                o = b_outcome_memo(c)
                 if (o[0], o[1]) == (kind, sig):
                     cur, changed = c, True
                     break
@@ -677,7 +688,7 @@ def b_minimise(s, kind, sig):
         for i in range(len(cur)):
             for sym in FULL[: _ORDER.get(cur[i], 0)]:
                 c = cur[:i] + sym + cur[i + 1 :]
-                o = b_outcome(c)
+                o = b_outcome_memo(c)
                 if (o[0], o[1]) == (kind, sig):
                     cur, changed = c, True
                     break
@@ -740,7 +751,8 @@ def run(ctx):
     ctx.log(f"parser tables validated against the working tree (regenerated: {regen})")
 
     # ---- part B first (cheap, and a spinning loop should be reported even if part A is slow under it)
-    _BFAMS = b_families(ctx.thorough)
+    only = os.environ.get("XV_C03_ONLY", "")  # development aid: "A" or "B" runs one part (evidence then says so)
+    _BFAMS = b_families(ctx.thorough) if only != "A" else [("none", ["a"], (0,))]
     items = b_items(_BFAMS)
     resb = common.pmap(_do_prefix, items, ctx.jobs, chunk=8, init=_init_worker, seed=ctx.seed)
     nb = sum(r["n"] for r in resb)
@@ -759,7 +771,9 @@ def run(ctx):
     )
 
     # ---- part A
-    _BLOCKS = gen.blocks(ctx.thorough)
+    _BLOCKS = gen.blocks(ctx.thorough) if only != "B" else gen.blocks(False)[2:]
+    if only:
+        ctx.assumptions.append(f"PARTIAL RUN: XV_C03_ONLY={only}")
     items = []
     per_block = []
     for bi, b in enumerate(_BLOCKS):
